@@ -1,0 +1,53 @@
+//go:build verif
+
+// Contracts for govc (contract-based deductive verification, see /verif/DESIGN.md): the table builders of the parser
+// generator (package golang itself, not the generated parser). Comment-only file, compiled only with -tags=verif.
+
+package golang
+
+//@ package golang
+//@
+//@ # C04: the conflicts handed to main (which reports them and decides the exit status) are exactly the conflicts of the
+//@ # item sets: a state is listed exactly when one of its rows has a conflict, a symbol exactly when two items of the
+//@ # state propose different actions for it
+//@ spec hasConflict(set *items.ItemSet, sym string) bool = some(j, 0, len(set.Items), some(k, 0, len(set.Items), compete(cand(set, sym, j), cand(set, sym, k))))
+//@ spec rowInput(prods ast.SyntaxProdList, set *items.ItemSet, tokMap *token.TokenMap) bool = set != nil && tokMap != nil && all(k, 0, len(set.Items), set.Items[k] != nil && 0 <= set.Items[k].ProdIdx && set.Items[k].ProdIdx < len(prods)) && all(p, 0, len(prods), prods[p] != nil)
+//@
+//@ # a state has a conflict when one of its rows has (folded where it is only passed on)
+//@ opaque spec stateHasConflict(set *items.ItemSet, tokMap *token.TokenMap) bool = some(i, 0, len(tokMap.TypeMap), hasConflict(set, tokMap.TypeMap[i]))
+//@
+//@ func nbytes
+//@   trusted
+//@   assigns nothing
+//@
+//@ func getActionRowData
+//@   prop C04
+//@   requires [input] rowInput(prods, set, tokMap)
+//@   ensures [row] data != nil && len(data.Actions) == len(tokMap.TypeMap)
+//@   ensures [conflicts] all(i, 0, len(tokMap.TypeMap), has(conflicts, tokMap.TypeMap[i]) == hasConflict(set, tokMap.TypeMap[i]))
+//@   ensures [only] forallS(s, imp(has(conflicts, s), some(i, 0, len(tokMap.TypeMap), tokMap.TypeMap[i] == s)))
+//@   ensures [nonempty] (len(conflicts) > 0) == stateHasConflict(set, tokMap)
+//@   assigns nothing
+//@   may_panic
+//@   allow_unreachable typedefault
+//@   loop 1
+//@     invariant [data] data != nil && data >= old(alloc()) && len(data.Actions) == len(tokMap.TypeMap) && arr(data.Actions) >= old(alloc()) && conflicts != nil && conflicts >= old(alloc()) && !nonempty(conflicts)
+//@   loop 2
+//@     invariant [data] data != nil && data >= old(alloc()) && len(data.Actions) == len(tokMap.TypeMap) && arr(data.Actions) >= old(alloc()) && conflicts != nil && conflicts >= old(alloc())
+//@     invariant [conflicts] all(i, 0, range_i2, has(conflicts, tokMap.TypeMap[i]) == hasConflict(set, tokMap.TypeMap[i]))
+//@     invariant [only] forallS(s, imp(has(conflicts, s), some(i, 0, range_i2, tokMap.TypeMap[i] == s)))
+//@
+//@ func getActionTableData
+//@   prop C04
+//@   requires [input] itemSets != nil && tokMap != nil && all(p, 0, len(prods), prods[p] != nil) && all(n, 0, len(itemSets.sets), rowInput(prods, itemSets.sets[n], tokMap))
+//@   ensures [rows] actTab != nil && len(actTab.Rows) == len(itemSets.sets)
+//@   # C04: a state is reported exactly when one of its rows has a conflict
+//@   ensures [conflicts] all(n, 0, len(itemSets.sets), has(conflicts, n) == stateHasConflict(itemSets.sets[n], tokMap))
+//@   ensures [only] forall(n, imp(has(conflicts, n), 0 <= n && n < len(itemSets.sets)))
+//@   ensures [count] (len(conflicts) > 0) == some(n, 0, len(itemSets.sets), stateHasConflict(itemSets.sets[n], tokMap))
+//@   assigns nothing
+//@   may_panic
+//@   loop 1
+//@     invariant [tab] actTab != nil && actTab >= old(alloc()) && len(actTab.Rows) == len(itemSets.sets) && arr(actTab.Rows) >= old(alloc()) && conflicts != nil && conflicts >= old(alloc())
+//@     invariant [conflicts] all(n, 0, range_i1, has(conflicts, n) == stateHasConflict(itemSets.sets[n], tokMap))
+//@     invariant [only] forall(n, imp(has(conflicts, n), 0 <= n && n < range_i1))
